@@ -3,6 +3,7 @@ module verif
 go 1.26.8
 
 require (
+	github.com/golang/snappy v0.0.4
 	github.com/hashicorp/raft v1.3.11
 	github.com/influxdata/influxdb v0.0.0
 	github.com/influxdata/influxql v1.2.0
@@ -19,7 +20,6 @@ require (
 	github.com/gofrs/uuid v3.3.0+incompatible // indirect
 	github.com/gogo/protobuf v1.3.2 // indirect
 	github.com/golang/protobuf v1.5.4 // indirect
-	github.com/golang/snappy v0.0.4 // indirect
 	github.com/google/flatbuffers v22.9.30-0.20221019131441-5792623df42e+incompatible // indirect
 	github.com/google/go-cmp v0.5.9 // indirect
 	github.com/hashicorp/go-hclog v0.9.1 // indirect
